@@ -101,5 +101,25 @@ CHECKS = {
    note="Absence of panics, faults and hangs is shown for the explored inputs only.",
    technique="TLA+ model of the cycle detector checked by TLC (termination, iff-cyclic), enumeration of heaps, supervised replay with monitors"),
 }
+
+# what later rounds added to each check (appended to the text above by bin/mkmanifest)
+EXTENSIONS = {
+ "C01": "spec/JsonString.tla adds the escape algorithm of the string encoder (word scan, tail, span copies) refined against the definition of a literal over 17 unit classes, with every unit sequence up to 3 (4) replayed through every writer of a string; a lattice of numbers (powers of ten and their neighbours per integer kind, the float notation cut-offs) and shared-but-acyclic values below depth 1000 are compared with encoding/json.",
+ "C02": "spec/JsonString.tla read backwards: literal-unit sequences (37 classes incl. surrogates, invalid bytes, broken escapes) with the meaning or rejection of the definition, at every word offset, cut by buffer refills and behind 33000 plain bytes, through every reader of a string; targets also hold nil pointers and non-pointers in their interfaces before the decode; named empty interface types and an interface type with a method are leaf kinds.",
+ "C03": "Maps keyed by messages (plain, nested, self-marshalling) with every kind of value get a round-trip check of their own; one Go type under two encodings (tagged and plain twin kinds) is generated in both orders.",
+ "C05": "The literal units of spec/JsonString.tla with the verdict WellFormed as document, element, member value and member name through every syntax-only consumer.",
+ "C06": "Every shape value is also appended to destinations with n-3..n+1 spare bytes; heaps are also built from typed nodes (generic map codec) and placed below a chain of 1001 pointers, where the cycle detector records what it visits; truncated documents go into targets with decoders of their own (Duration, Time, []byte, Number, text and JSON unmarshalers, integer and text map keys, ,string fields).",
+ "C07": "Unknown fields are also written with padded tags, lengths and varints; spec/WireAlloc.tla (kind append) drives repeated fields of up to 80 thousand elements through a quiet allocation meter.",
+ "C08": "spec/WireAlloc.tla models the reservation policies for sizes read from the wire (lists, maps / sets, byte strings; invariant: all memory ever allocated within a constant factor of what was consumed; three wrong policies as vacuity witnesses); every (kind, announced, present) triple, lifted to 1024 / 4096 and announced sizes up to 2^31-1, is decoded on both protocols: unexpected-EOF class error, bounded allocation.",
+ "C09": "The stress also marshals a fresh type with pointer-receiver methods on its fields by value, by pointer and inside interfaces (judged against encoding/json), and nested sorted maps after failed encodes of each kind of map.",
+ "C10": "Encoder histories (settings changed between Encode calls) with a writer that makes further library calls, on this and another goroutine, while it holds the bytes it was handed.",
+ "C11": "Negative numbers (the sign alone is no value) and numbers that start just before, at and behind a buffer boundary.",
+ "C12": "One Go type under two encodings (tagged and plain twin kinds) in both orders.",
+ "C14": "The number table is decoded with the interface in every position: slice, array, map, field, pointer, named empty interface types, interfaces holding pointers.",
+ "C15": "A lattice of numbers (powers of ten and neighbours per integer kind, float cut-offs) through the whole prefix x spare-capacity grid; 70-element slices.",
+ "C16": "After every call that fails for want of room the zero value of the same type is encoded again and compared with its encoding from before.",
+ "C18": "The allocation clause is checked under every flag subset on every combination of the optional parts, also cut short and followed by 40 more bytes.",
+ "C20": "Every length up to 80 x every position x deviation for the bytes and string variants of all predicates, the fold family position by position.",
+}
 NOT_APPLICABLE = []
 HOOK_COMMITS = ["0806904", "096f248", "90a2273"]
